@@ -740,6 +740,10 @@ func (d *Driver) check(e *mc.Env, s *mc.State) []mc.Finding {
 			settlePaid = out.Responses[0].(*farmtypes.MsgHarvestResponse).Reward
 		} else if !(s.Ctx.BlockHeight() > pool.EndHeight) {
 			fs = append(fs, mc.F("C06/harvest-failed/"+d.classifyFailure(e, fk, stakers[0], pend[stakers[0]], out), "settling harvest by %s rejected: %s", stakers[0], out))
+			// the rejected transaction was rolled back together with the pool update it contained: the lazily
+			// accounted releases could not be settled, so the bookkeeping comparisons below have nothing to compare
+			// (the failure itself is the finding)
+			return append(fs, d.proRata(m, pend, "C06", true)...)
 		}
 	}
 	pool2 := d.pool(e, fk)
